@@ -102,15 +102,18 @@ RES = [
      "obs": {0: "assert.equal(req.backend, B_h)", 1: "assert.equal(req.backend, B_g)"}},
 ]
 RES_SCOPES = ["recv", "miss", "pass", "hit"]
-MAIN_DECLS = """backend B_h { .host = "127.0.0.1"; .port = "80"; }
+MAIN_BACKENDS = """backend B_h { .host = "127.0.0.1"; .port = "80"; }
 backend B_g { .host = "127.0.0.2"; .port = "80"; }
-table tbl STRING { "k0": "v0", }
 ratecounter rc_a { }
 penaltybox pb_a { }
 sub s_m {
   set req.http.mocked = "real";
 }
 """
+MAIN_TABLE = """table tbl STRING { "k0": "v0", }
+"""
+MAIN_DECLS = MAIN_BACKENDS + MAIN_TABLE
+LAYOUTS = ["flat", "include", "ipath"]
 TEST_DECLS = """table fx1 STRING { "mk": "f1", }
 table fx2 STRING { "mk": "f2", }
 """
@@ -134,6 +137,37 @@ class Suite:
         self.tests = []
         self.groups = []    # dict(name, before={scope: steps}, after={scope: steps}, tests=[index into self.tests])
         self.stats = {}
+        # the STRUCTURE of what is under test: "flat" = one main.vcl; "include" = declarations, the table (nested
+        # include) and the subroutines live in modules included from main's directory; "ipath" = the same modules in
+        # a directory given with -I.  nfiles: the tests are spread over that many *.test.vcl files of one run.
+        self.layout = "flat"
+        self.nfiles = 1
+
+    def split(self, order):
+        if self.nfiles == 1 or len(order) < 2:
+            return [list(order)]
+        h = (len(order) + 1) // 2
+        return [list(order[:h]), list(order[h:])]
+
+    def tree(self, order, cov, only_first_file=False):
+        """the files of one `falco test` run and how to start it"""
+        subs = self.main_vcl(parts=True)
+        parts = self.split(order)
+        names = ["main.test.vcl"] if len(parts) == 1 else ["a.test.vcl", "b.test.vcl"]
+        files = {n: self.test_vcl(p) for n, p in zip(names, parts)}
+        inc = []
+        if self.layout == "flat":
+            files["main.vcl"] = MAIN_DECLS + subs["subs"] + subs["recv"]
+        else:
+            d = "" if self.layout == "include" else "inc/"
+            files["main.vcl"] = 'include "decls";\ninclude "subs";\n' + subs["recv"]
+            files[d + "decls.vcl"] = MAIN_BACKENDS + 'include "tables";\n'
+            files[d + "tables.vcl"] = MAIN_TABLE
+            files[d + "subs.vcl"] = subs["subs"]
+            if d:
+                inc = ["inc"]
+        return {"cov": bool(cov), "files": files, "main": "main.vcl", "include_paths": inc,
+                "filter": "*/" + names[0] if only_first_file else ""}
 
     def items(self):
         """the items of the test file in their default order: ('t', test index) | ('g', group index)"""
@@ -162,8 +196,8 @@ class Suite:
             parts.append('if(%s, "%s", "%s")' % (self.ctext(c), v, v))
         return " + ".join(parts) if parts else '"%s"' % final
 
-    def main_vcl(self):
-        out = [MAIN_DECLS.rstrip("\n")]
+    def main_vcl(self, parts=False):
+        out = [] if parts else [MAIN_DECLS.rstrip("\n")]
 
         def block(b, ind):
             for s in b:
@@ -217,8 +251,10 @@ class Suite:
             block(b, 1)
             out.append("}")
         out.append("sub x_err {\n  error 503;\n}\nsub x_restart {\n  restart;\n}\nsub x_noop {\n  set req.http.x-noop = \"1\";\n}")
-        out.append("sub vcl_recv {\n  #FASTLY recv\n  return (lookup);\n}")
-        return "\n".join(out) + "\n"
+        recv = "sub vcl_recv {\n  #FASTLY recv\n  return (lookup);\n}\n"
+        if parts:
+            return {"subs": "\n".join(out) + "\n", "recv": recv}
+        return "\n".join(out) + "\n" + recv
 
     def step_lines(self, steps, ind):
         out = []
@@ -331,18 +367,20 @@ class Suite:
         return "(test %d (%s) %d (%s))" % (t["name"], " ".join(str(SCOPES.index(x)) for x in t["scopes"]), int(t["skip"]),
                                            self.steps_sexp(t["steps"]))
 
-    def model_request(self, cov, order):
+    def model_request(self, cov, order, only_first_file=False):
         subs = "".join(" (sub %d %s)" % (k, self.bsexp(b)) for k, b in self.subs)
         items = []
-        for kind, i in order:
-            if kind == "t":
-                items.append("(single %s)" % self.test_sexp(self.tests[i]))
-            else:
-                g = self.groups[i]
-                hooks = lambda d: "".join(" (%d (%s))" % (SCOPES.index(sc), self.steps_sexp(st)) for sc, st in sorted(d.items()))
-                items.append("(group %d (before%s) (after%s) %s)" % (g["name"], hooks(g["before"]), hooks(g["after"]),
-                                                                     " ".join(self.test_sexp(self.tests[ti]) for ti in g["tests"])))
-        items += ["(single (test 9001 (0) 0 ()))", "(single (test 9002 (0) 0 ()))"]
+        parts = self.split(order)
+        for part in (parts[:1] if only_first_file else parts):        # the items of each test file, then its two mock targets
+            for kind, i in part:
+                if kind == "t":
+                    items.append("(single %s)" % self.test_sexp(self.tests[i]))
+                else:
+                    g = self.groups[i]
+                    hooks = lambda d: "".join(" (%d (%s))" % (SCOPES.index(sc), self.steps_sexp(st)) for sc, st in sorted(d.items()))
+                    items.append("(group %d (before%s) (after%s) %s)" % (g["name"], hooks(g["before"]), hooks(g["after"]),
+                                                                         " ".join(self.test_sexp(self.tests[ti]) for ti in g["tests"])))
+            items += ["(single (test 9001 (0) 0 ()))", "(single (test 9002 (0) 0 ()))"]
         return "run %d (subs%s) (items %s)" % (int(cov), subs, " ".join(items))
 
     @staticmethod
@@ -462,7 +500,7 @@ def sim_steps(suite, steps, fl, rs, logs):
     return "pass", p
 
 
-def simulate(suite, order):
+def simulate(suite, order, only_first_file=False):
     """-> (cases [(group, name, scope, skip, verdict, logs)], counter (asserts, passes, fails, skips), exit),
     or None when a hook of a group raises (the run fails as a whole)"""
     cases = []
@@ -497,18 +535,20 @@ def simulate(suite, order):
                     raise Abort()
                 cnt["p"] += p
                 cnt["a"] += p
+    parts = suite.split(order)
     try:
-        for kind, i in order:
-            if kind == "t":
-                run_test(suite.tests[i], set(), {}, None)       # a fresh interpreter per ungrouped test subroutine
-            else:
-                g = suite.groups[i]
-                fl, rs = set(), {}                              # one interpreter for the whole group
-                for ti in g["tests"]:
-                    run_test(suite.tests[ti], fl, rs, g)
+        for part in (parts[:1] if only_first_file else parts):
+            for kind, i in part:
+                if kind == "t":
+                    run_test(suite.tests[i], set(), {}, None)       # a fresh interpreter per ungrouped test subroutine
+                else:
+                    g = suite.groups[i]
+                    fl, rs = set(), {}                              # one interpreter for the whole group
+                    for ti in g["tests"]:
+                        run_test(suite.tests[ti], fl, rs, g)
+            cases += [(None, 9001, "recv", False, "pass", []), (None, 9002, "recv", False, "pass", [])]
     except Abort:
         return None
-    cases += [(None, 9001, "recv", False, "pass", []), (None, 9002, "recv", False, "pass", [])]
     return cases, (cnt["a"], cnt["p"], cnt["f"], cnt["sk"]), (1 if cnt["f"] > 0 else 0)
 
 
@@ -648,16 +688,20 @@ class TestRunGen:
         r = self.r
         out = []
         cur = {} if cur is None else cur
+        mine = {}                                  # what THIS step list itself has put in place so far
         for _ in range(r.randint(2, 6)):
             x = r.choice(hot)
             k = r.random()
             if k < 0.55:
                 v = r.choice(sorted(RES[x]["mut"]))
-                if v == 0 and cur.get(x, 0) != 0 and "restore" in RES[x] and single_scope and r.random() < 0.5:
+                # testing.restore_mock raises when nothing is mocked: only after a mock made by these very steps
+                # (an earlier test of the group may have been skipped, an earlier scope may have restored)
+                if v == 0 and mine.get(x, 0) != 0 and "restore" in RES[x] and r.random() < 0.5:
                     out.append(("res", x, 0, RES[x]["restore"]))
                 else:
                     out.append(("res", x, v))
                 cur[x] = v
+                mine[x] = v
                 self._c("helper:" + RES[x]["name"])
             elif k < 0.92:
                 out.append(("ar", x, cur.get(x, 0)))
